@@ -380,10 +380,11 @@ static void run_child(const std::string &mode, const std::vector<std::string> &p
   _exit(0);
 }
 
-static int g_steps_per_reg = 2;   // number of stores in SetHandler (argv[1]; 3 for the repaired layout)
+static int g_steps_per_reg = 2;   // number of stores in SetHandler (argv[1] = "<R>[,<D>]"; 3 for the repaired layout)
+static int g_steps_per_dtor = 5;  // number of program steps of the destructor (4 stores + free; 4 without `stop_ = 1`)
 
 int main(int argc, char **argv) {
-  if (argc > 1) g_steps_per_reg = atoi(argv[1]);
+  if (argc > 1) { int r = 2, d = 5; int n = sscanf(argv[1], "%d,%d", &r, &d); if (n >= 1) g_steps_per_reg = r; if (n >= 2) g_steps_per_dtor = d; }
   if (!mp_verif_point) { /* hook variable exists (link succeeded); null by default as required */ }
   else { fprintf(stderr, "mp_verif_point is not null by default\n"); return 3; }
 #ifdef C15_APP
@@ -440,15 +441,15 @@ int main(int argc, char **argv) {
       if (prog.size() != 1 || prog[0].compare(0, 3, "APP") != 0 || prog[0].size() > 4 ||
           (prog[0].size() == 4 && !strchr("AEXU", prog[0][3]))) bad = true;
       g_app_variant = (!bad && prog[0].size() == 4) ? prog[0][3] : ' ';
-      nsteps = g_app_variant == 'U' ? 7 + 5 : (g_app_variant == 'E' || g_app_variant == 'X') ? 7 + g_steps_per_reg + 1 + 5
-                                                                                            : 7 + g_steps_per_reg + 1 + 1 + 5;
+      nsteps = g_app_variant == 'U' ? 7 + g_steps_per_dtor : (g_app_variant == 'E' || g_app_variant == 'X') ? 7 + g_steps_per_reg + 1 + g_steps_per_dtor
+                                                                                            : 7 + g_steps_per_reg + 1 + 1 + g_steps_per_dtor;
       if (!bad)
         if (!sched.empty() && sched.back().gap > nsteps) bad = true;
       if (false)
 #endif
       for (const std::string &m : prog) {
         if (m == "C") { if (alive) bad = true; alive = true; nsteps += 7; }
-        else if (m == "D") { if (!alive) bad = true; alive = false; nsteps += 5; }
+        else if (m == "D") { if (!alive) bad = true; alive = false; nsteps += g_steps_per_dtor; }
         else if (m == "W") nsteps += 1;
         else if (m[0] == 'N') {
           int h = -1, d = -1, used = 0;
